@@ -1,5 +1,5 @@
 // c18.cpp — ext_gcd / get_mult_inverse / is_prime / SpVecFP on the real code, for long long, int and cpp_int.
-// Case kinds: G I P V = long long, GB IB PB VB = cpp_int, Gi Ii Pi Vi = int.
+// Case kinds: G I P V = long long, GB IB PB VB = cpp_int, Gi Ii Pi Vi = int, Vs = short (vectors only: a narrow coefficient type, many common indices).
 // Built three times by tools/props/c18.py: plain; with -fsanitize=signed-integer-overflow -fno-sanitize-recover=all (an
 // overflow aborts the process: the case answers CRASH); and the same with -DC18_NO_INVARIANTS_CHECK, i.e. without the
 // extra computations of PARMCB_INVARIANTS_CHECK (the assertion of ext_gcd, sqrtt*sqrtt in is_prime, the p <= 0 test).
@@ -18,6 +18,7 @@ typedef long long LL;
 template<class T> static T parse(const std::string &s);
 template<> LL parse<LL>(const std::string &s) { return std::stoll(s); }
 template<> int parse<int>(const std::string &s) { return std::stoi(s); }
+template<> short parse<short>(const std::string &s) { return (short) std::stoi(s); }
 template<> BI parse<BI>(const std::string &s) { if (s[0] == '-') return -BI(s.substr(1)); return BI(s); }
 
 template<class T> static void do_gcd(Toks &t, std::ostream &out) {
@@ -70,7 +71,7 @@ int main() {
         if (c == "G") do_gcd<LL>(t, out); else if (c == "GB") do_gcd<BI>(t, out); else if (c == "Gi") do_gcd<int>(t, out);
         else if (c == "I") do_inv<LL>(t, out); else if (c == "IB") do_inv<BI>(t, out); else if (c == "Ii") do_inv<int>(t, out);
         else if (c == "P") do_prime<LL>(t, out); else if (c == "PB") do_prime<BI>(t, out); else if (c == "Pi") do_prime<int>(t, out);
-        else if (c == "V") do_vec<LL>(t, out); else if (c == "VB") do_vec<BI>(t, out); else if (c == "Vi") do_vec<int>(t, out);
+        else if (c == "V") do_vec<LL>(t, out); else if (c == "VB") do_vec<BI>(t, out); else if (c == "Vi") do_vec<int>(t, out); else if (c == "Vs") do_vec<short>(t, out);
         else throw std::runtime_error("bad case kind " + c);
     });
 }
